@@ -1645,8 +1645,59 @@ fn gen_path_op(g: &mut Gen, cfg: &RunCfg, cur_path: &[u8]) -> PathOp {
 	}
 }
 
+/// A different spelling of the same component: one character percent-encoded, or the hex
+/// digits of one escape in the other case. Decodes to the same text, is not the same text.
+fn respell(g: &mut Gen, s: &str) -> Option<String> {
+	if s.is_empty() || s.starts_with('[') {
+		return None;
+	}
+	let cs: Vec<char> = s.chars().collect();
+	if let Some(i) = cs.iter().position(|c| *c == '%') {
+		if i + 2 < cs.len() && g.rng.chance(1, 2) {
+			let mut o = cs.clone();
+			for k in [i + 1, i + 2] {
+				o[k] = if o[k].is_ascii_lowercase() { o[k].to_ascii_uppercase() } else { o[k].to_ascii_lowercase() };
+			}
+			let r: String = o.into_iter().collect();
+			if r != s {
+				return Some(r);
+			}
+		}
+	}
+	let idx: Vec<usize> = (0..cs.len()).filter(|i| cs[*i].is_ascii_alphanumeric() || !cs[*i].is_ascii()).filter(|i| !(*i >= 1 && cs[*i - 1] == '%') && !(*i >= 2 && cs[*i - 2] == '%')).collect();
+	if idx.is_empty() {
+		return None;
+	}
+	let i = *g.rng.pick(&idx);
+	let upper = g.rng.chance(1, 2);
+	let mut r = String::new();
+	for (k, c) in cs.iter().enumerate() {
+		if k == i {
+			let mut b = [0u8; 4];
+			for byte in c.encode_utf8(&mut b).bytes() {
+				r.push_str(&if upper { format!("%{:02X}", byte) } else { format!("%{:02x}", byte) });
+			}
+		} else {
+			r.push(*c);
+		}
+	}
+	Some(r)
+}
+
 fn gen_auth_op(g: &mut Gen, cur_auth: &[u8]) -> AuthOp {
 	let p = split3(cur_auth);
+	// now and then: the current user info or host again, spelled differently
+	if g.rng.chance(1, 12) {
+		if g.rng.chance(1, 2) {
+			if let Some(h) = std::str::from_utf8(&cur_auth[p.host.clone()]).ok().and_then(|h| respell(g, h)) {
+				return AuthOp::SetHost(h);
+			}
+		} else if let Some(r) = &p.userinfo {
+			if let Some(u) = std::str::from_utf8(&cur_auth[r.clone()]).ok().and_then(|u| respell(g, u)) {
+				return AuthOp::SetUserinfo(Some(u));
+			}
+		}
+	}
 	match g.rng.weighted(&[5, 5, 5, 1]) {
 		0 => {
 			if g.rng.chance(1, 4) {
